@@ -12,6 +12,8 @@ Where the full statement fails (counterexample proved here, replayed on the impl
 import Helm.Lemmas.Cluster
 import Helm.Model.Ledger
 import Helm.Model.DryRun
+import Helm.Gen.Tables
+import Helm.Spec.Skeletons
 
 namespace Helm.Props.C07
 open Helm.Cluster
@@ -326,5 +328,19 @@ example :
     let s : Store := [{ key := "a", labels := [(managedByLabel, "Helm")], annos := [(releaseNameAnno, "other"), (releaseNsAnno, "n")] }]
     (installCluster "r" "n" false false false [{ key := "a" }] s).ok = false ∧
     (installCluster "r" "n" true false false [{ key := "a" }] s).ok = true := by decide
+
+/-! ### where the ownership check sits in the source (regenerated at every run) -/
+
+/-- In install and in upgrade the ownership check (existingResourceConflict / requireAdoption)
+comes before the revision record is created and before the operation proper; in install the CRDs
+are installed before it (the known finding). -/
+theorem ownership_check_position :
+    Helm.Spec.precedes "existingResourceConflict" "Releases.Create" Helm.Gen.skelInstallRun = true ∧
+    Helm.Spec.precedes "requireAdoption" "Releases.Create" Helm.Gen.skelInstallRun = true ∧
+    Helm.Spec.precedes "existingResourceConflict" "i.performInstallCtx" Helm.Gen.skelInstallRun = true ∧
+    Helm.Spec.precedes "existingResourceConflict" "Releases.Create" Helm.Gen.skelUpgradePerform = true ∧
+    Helm.Spec.precedes "requireAdoption" "Releases.Create" Helm.Gen.skelUpgradePerform = true ∧
+    Helm.Spec.precedes "existingResourceConflict" "u.releasingUpgrade" Helm.Gen.skelUpgradePerform = true ∧
+    Helm.Spec.precedes "i.installCRDs" "existingResourceConflict" Helm.Gen.skelInstallRun = true := by decide
 
 end Helm.Props.C07
